@@ -499,7 +499,7 @@ def resolve(model: RefDir, op):
             return {'a': 'term_unit', 'type': tn,
                     'sym': fresh_symbol(model, 'u', n, deco),
                     'items': [[u1, e], [u2, -e]], 'k': None, 'nums': nums,
-                    'spell': r[11] % 4, 'expect': 'reject',
+                    'spell': r[11] % 7, 'expect': 'reject',
                     'bad': 'wrong_dimension', 'cancels': True}
         if kind == 'wrong_dim_term':
             others = [x for x in model.types_with_ref() if x != tn]
@@ -508,7 +508,7 @@ def resolve(model: RefDir, op):
                 return None
             expect = 'reject'
         act = {'a': 'term_unit', 'type': target,
-               'sym': fresh_symbol(model, 'u', n, deco), 'items': items, 'k': k, 'nums': nums, 'spell': r[11] % 4,
+               'sym': fresh_symbol(model, 'u', n, deco), 'items': items, 'k': k, 'nums': nums, 'spell': r[11] % 7,
                'expect': expect}
         if expect == 'reject':
             act['bad'] = 'wrong_dimension'
@@ -1060,6 +1060,17 @@ def perform(env: Env, act):
                 term = Term(nums + items)
             elif spell == 1:
                 term = Term(items + nums)
+            elif spell in (4, 5, 6):
+                # written as a power of another term: the inverse term to
+                # the power of -1, its reciprocal(), or - if every exponent
+                # is even - the "root" term squared
+                allx = nums + items
+                if spell == 6 and all(e % 2 == 0 for _x, e in allx):
+                    term = Term([(x, e // 2) for x, e in allx]) ** 2
+                elif spell == 5:
+                    term = Term([(x, -e) for x, e in allx]).reciprocal()
+                else:
+                    term = Term([(x, -e) for x, e in allx]) ** -1
             else:
                 # with operators: term * k, term / k, k * term
                 term = Term(items)
